@@ -64,7 +64,7 @@ def region(draw, idx, exact=False):
 
 
 # ----------------------------------------------------------------------------- abstract ops
-TARGET_KINDS = ["grid", "in", "in", "edge_in", "edge_out", "same", "border"]
+TARGET_KINDS = ["grid", "in", "in", "edge_in", "edge_out", "same", "border", "zero"]
 
 
 @st.composite
@@ -293,12 +293,15 @@ class Renderer(object):  # pylint: disable=too-many-instance-attributes
     # -- targets
     def target(self, kind, rsel, i, j):
         regs = self.regions
-        if kind != "grid" and kind != "same" and not regs:
+        if kind not in ("grid", "same", "zero") and not regs:
             kind = "grid"
         if kind == "grid":
             return (i * 0.5, j * 0.5)
         if kind == "same":
             return (self.pr.x, self.pr.y)
+        if kind == "zero":
+            # the point whose logical coordinates are exactly 0 (a legal coordinate, falsy in careless code)
+            return (self.pr.shift["x"], self.pr.shift["y"])
         reg = regs[rsel % len(regs)]
         if reg["type"] == "rect":
             x1, y1, x2, y2 = geom.norm_rect(reg)
